@@ -286,6 +286,71 @@ def random_run(cfg, rnd, seed):
     return steps
 
 
+def micro_runs(rep, n, rnd, seed):
+    """Schedules at the grain of event-loop iterations: after each external event only a few loop iterations run before the
+    next one arrives, so data, timer expiry, disconnects and gate openings fall BETWEEN the steps of the tasks the server has
+    started (anything it awaits internally becomes an interleaving point).  These executions are not compared step by step
+    with the model - its actions are whole callbacks - but every one is judged by the observation spec."""
+    traces = []
+    for _ in range(n):
+        cfg = random_cfg(rnd)
+        h = ConnHarness(cfg, seed=seed)
+        loop = h.loop
+        full_idle = loop.run_idle
+
+        def few(limit=0):
+            for _i in range(rnd.choice([1, 1, 2, 3])):
+                if not (loop._ready or loop._due()):
+                    break
+                loop.call_soon(loop.stop)
+                loop.run_forever()
+        steps = []
+        try:
+            loop.run_idle = few
+            try:
+                for _ in range(rnd.randint(2, 12)):
+                    opts = []
+                    if not h.tr.lost:
+                        opts += [("Data", p) for p in cfg["s"]["cuts"] if p > h.delivered] * 2
+                    if h.mw_waiting():
+                        opts += [("MwStep", None)] * 2
+                    if h.h_waiting() and cfg["h"]["out"] != "never":
+                        opts += [("HandlerComplete", None)] * 2
+                    if loop.next_timer() is not None:
+                        opts.append(("TimerFire", None))
+                    if not h.tr.closing and not h.tr.lost:
+                        opts.append(("PeerDisconnect", None))
+                    if h.tr.pending_lost is not None and not h.tr.lost:
+                        opts.append(("ConnectionLost", None))
+                    if not opts:
+                        few()
+                        if not (loop._ready or loop._due()):
+                            break
+                        continue
+                    a, p = rnd.choice(opts)
+                    try:
+                        o = h.do(a, *([p] if a == "Data" else []))
+                    except RuntimeError:
+                        continue
+                    st = {"a": a, "o": obs_json(o)}
+                    if a == "Data":
+                        st["p"] = p
+                    steps.append(st)
+            finally:
+                loop.run_idle = full_idle
+            loop.run_idle()
+            if steps:
+                steps.append({"a": steps[-1]["a"] if steps[-1]["a"] not in ("Data", "TimerFire", "PeerDisconnect") else "MwStep",
+                              "o": obs_json(h.project()), "settle": True})
+            for a, o in h.drain():
+                steps.append({"a": a, "o": obs_json(o), "drain": True})
+        finally:
+            h.close()
+        if steps:
+            traces.append({"cfg": cfg_json(cfg), "steps": steps})
+    return traces
+
+
 def trace_validation(pid, rep, n, rnd):
     traces = []
     for _ in range(n):
@@ -516,6 +581,11 @@ def main(pid, rep=None, finish=True):
             suspects.append(("replay", m, {"cfg": m["cfg"], "steps": steps}))
         for t in rejected:
             suspects.append(("trace", t, {"cfg": t["cfg"], "steps": t["steps"]}))
+        mt = micro_runs(rep, 4000 if thorough else 800, rnd, rep.seed)
+        rep.add("loop_iteration_grain_runs", len(mt))
+        rep.add("traces_validated_against_impl", len(mt))
+        for t in mt:
+            suspects.append(("loop-iteration schedule", {"steps": t["steps"]}, t))
         rc = real_components(rep, rnd, 600 if thorough else 150)
         rep.add("real_component_refusals", len(rc))
         rep.add("traces_validated_against_impl", len(rc))
@@ -541,9 +611,9 @@ def main(pid, rep=None, finish=True):
                 rep.violation(sig, "%s falsified by a real execution (%s): cfg=%s actions=%s" % (
                     ",".join(mine), kind, json.dumps(tr["cfg"]), [(s["a"], s.get("p")) for s in tr["steps"]]), full)
             else:
-                if kind == "real-component" and not bad:
-                    continue          # conforming executions of the real components
-                if pid == "C07" and kind != "real-component" and ndiff < 400:
+                if kind in ("real-component", "loop-iteration schedule") and not bad:
+                    continue          # executions that are only judged, not compared with the model step by step
+                if pid == "C07" and kind not in ("real-component", "loop-iteration schedule") and ndiff < 400:
                     # C07 is relational: whatever else is wrong, re-segmenting the same bytes must not change the outcome
                     ndiff += 1
                     d = differential(tr, rep.seed)
